@@ -20,7 +20,7 @@ from fractions import Fraction
 import numpy as np
 
 PROP = 'C02'
-TARGETS = ['T8', 'T8b', 'T8c', 'T8d', 'T8e', 'T8f', 'T8g', 'T8h', 'T8j', 'T8k', 'T8m', 'T8n', 'T8p', 'T8q', 'T17p']
+TARGETS = ['T8', 'T8b', 'T8c', 'T8d', 'T8e', 'T8f', 'T8g', 'T8h', 'T8j', 'T8k', 'T8m', 'T8n', 'T8p', 'T8q', 'T8s', 'T17p']
 LEAN_MODULES = ['HdVerif.Props.C02']
 MODEL_MODULES = ['HdVerif.Model.SegRead', 'HdVerif.Model.SegReadSpec', 'HdVerif.Model.SegMeta', 'HdVerif.Model.Effects']
 NAMESPACE = 'HdVerif.C02'
@@ -996,6 +996,43 @@ def _search(ctx, obj, reqs, pending):
         if not ok:
             ctx.fail({'obj': d, 'search': 'description', 'number': rec['number']}, f'description differs: {val}',
                      site='search/description')
+        reqs.append(('segmentDescription', {'descs': _descs_json(seg), 'number': rec['number']}))
+        pending.append(({'obj': d, 'search': 'description', 'number': rec['number']},
+                        ('ok', {'number': int(val.segment_number), 'label': str(val.segment_label)}) if st == 'ok'
+                        else ('err', _err_kind(val)), 'exact'))
+    # a number no item carries is refused (IndexError); the background item of a label map is an item and is found
+    absent = max(d['nums']) + 1 + r.randrange(3)
+    for number in [absent] + ([int(seg.PixelPaddingValue)] if 'PixelPaddingValue' in seg and
+                              any(int(i.SegmentNumber) == int(seg.PixelPaddingValue) for i in seg.SegmentSequence) else []):
+        st, val = _fetch(seg.get_segment_description, number)
+        ctx.case(entry='get_segment_description', outcome='ok' if st == 'ok' else _err_kind(val))
+        if number == absent and st == 'ok':
+            ctx.fail({'obj': d, 'search': 'description', 'number': number}, 'a description was returned for a number no segment has',
+                     site='search/description')
+        reqs.append(('segmentDescription', {'descs': _descs_json(seg), 'number': number}))
+        pending.append(({'obj': d, 'search': 'description', 'number': number},
+                        ('ok', {'number': int(val.segment_number), 'label': str(val.segment_label)}) if st == 'ok'
+                        else ('err', _err_kind(val)), 'exact'))
+    # segmented property categories / types: each concept once, by its first occurrence, in sequence order
+    for attr, key in (('segmented_property_categories', 'category'), ('segmented_property_types', 'type')):
+        st, val = _fetch(lambda: [[str(c.value), str(c.scheme_designator), (str(c.scheme_version) if c.scheme_version else None)]
+                                  for c in getattr(seg, attr)])
+        seen, want = set(), []
+        for rec in recs:
+            kk = _code_key(rec[key])
+            if kk not in seen:
+                seen.add(kk)
+                want.append([rec[key][0], rec[key][1], rec[key][3]])
+        ctx.case(entry=attr, outcome='ok' if st == 'ok' else _err_kind(val), distinct=min(len(want), 4))
+        if st != 'ok' or val != want:
+            ctx.fail({'obj': d, 'search': attr}, f'{attr} = {val}, first occurrences of the described concepts {want}',
+                     site='search/' + attr)
+        obj.setdefault('_codes', {})[key] = (st, val)
+    cc = obj.get('_codes', {})
+    if all(cc.get(k, ('err',))[0] == 'ok' for k in ('category', 'type')):
+        reqs.append(('propertyCodes', {'descs': _descs_json(seg), 'ppv': _ppv(seg), 'srt': _srt_pairs(_descs_json(seg), {})}))
+        pending.append(({'obj': d, 'search': 'property_codes'},
+                        ('ok', {'categories': cc['category'][1], 'types': cc['type'][1]}), 'exact'))
     for bad in ('automatic', 'NONE'):
         st, val = _fetch(seg.get_segment_numbers, algorithm_type=bad)
         ctx.case(entry='get_segment_numbers', outcome='ok' if st == 'ok' else _err_kind(val), filters='bad-algo')
